@@ -17,11 +17,15 @@ class Node:
         self.kids = kids
 
 
-def materialise(spec, registry=None, module=None):
+def materialise(spec, registry=None, module=None, via_hybrid=False):
     """-> Node tree.  `registry` maps class name -> class for reuse of equal names
-    (equal names inside one tree mean equal structure, guaranteed by typegen)."""
+    (equal names inside one tree mean equal structure, guaranteed by typegen).
+    via_hybrid: struct classes are the _XoStruct of a HybridClass declared with the same fields in the same order
+    (a struct field is then declared with the nested HybridClass, as users write it)."""
     import xobjects as xo
 
+    if via_hybrid:
+        return _materialise_via_hybrid(spec, {})
     if registry is None:
         registry = {}
     k = spec["k"]
@@ -70,6 +74,35 @@ def materialise(spec, registry=None, module=None):
         registry[spec["name"]] = cls
         return Node(spec, cls, kids)
     raise ValueError(k)
+
+
+def _materialise_via_hybrid(spec, hyb):
+    import xobjects as xo
+
+    k = spec["k"]
+    if k == "struct":
+        kids = [_materialise_via_hybrid(t, hyb) for _, t in spec["fields"]]
+        fields = {}
+        for (fn, ft), kid in zip(spec["fields"], kids):
+            fields[fn] = hyb.get(id(kid.cls), kid.cls)  # a nested hybrid struct is declared by its HybridClass
+        H = type(spec["name"], (xo.HybridClass,), {"_xofields": fields})
+        hyb[id(H._XoStruct)] = H
+        return Node(spec, H._XoStruct, kids)
+    if k in ("scalar", "string"):
+        return materialise(spec)
+    if k == "array":
+        item = _materialise_via_hybrid(spec["item"], hyb)
+        nd = len(spec["shape"])
+        shp = tuple(spec["shape"]) if list(spec["order"]) == list(range(nd)) else tuple(slice(d, o) for d, o in zip(spec["shape"], spec["order"]))
+        cls = item.cls[shp]
+        if spec.get("name"):
+            cls = type(spec["name"], (cls,), {})
+        return Node(spec, cls, [item])
+    if k == "ref":
+        to = _materialise_via_hybrid(spec["to"], hyb)
+        return Node(spec, xo.Ref[to.cls], [to])
+    kids = [_materialise_via_hybrid(t, hyb) for t in spec["members"]]
+    return Node(spec, type(spec["name"], (xo.UnionRef,), {"_reftypes": [kid.cls for kid in kids]}), kids)
 
 
 # --------------------------------------------------------------------------
